@@ -286,6 +286,37 @@ pub fn run(run: &Run) {
             judge(run, "trapezoid/unit-spacing", guard(|| trapezoid(&y, None, None)), want, 0.0, &|| format!("trapezoid(y={:?})", y));
         });
     }
+    // repeated abscissae (a tabulated step: zero-width panels contribute nothing, the next panel starts from the
+    // ordinate after the jump): every non-decreasing abscissa word with at least one repeat
+    for k in 2..=6usize {
+        let mut xsets: Vec<Vec<f64>> = Vec::new();
+        crate::common::enumerate::product(&vec![xl.len(); k], |w| {
+            if w.windows(2).all(|p| p[0] <= p[1]) && w.windows(2).any(|p| p[0] == p[1]) {
+                xsets.push(w.iter().map(|&i| xl[i]).collect());
+            }
+        });
+        par_words(5, k, |w| {
+            if k >= 5 && (w.iter().enumerate().map(|(i, &v)| v * (i + 1)).sum::<usize>()) % 7 != 0 {
+                return;
+            }
+            let y: Vec<f64> = w.iter().map(|&i| yl[i]).collect();
+            for x in &xsets {
+                run.case();
+                run.nontrivial(1);
+                let want: f64 = (1..k).map(|i| (y[i] + y[i - 1]) / 2.0 * (x[i] - x[i - 1])).sum();
+                judge(run, "trapezoid/repeated-x", guard(|| trapezoid(&y, Some(x), None)), want, 0.0, &|| format!("trapezoid(y={:?}, x={:?})", y, x));
+            }
+        });
+    }
+    // a long tabulated step function (ECDF-like): jumps at every third abscissa
+    for &n in &[10usize, 100, 1001, 4096] {
+        let x: Vec<f64> = (0..n).map(|i| (i - i / 3) as f64 * 0.25).collect();
+        let y: Vec<f64> = (0..n).map(|i| ((i * 5) % 11) as f64 - 4.0).collect();
+        run.case();
+        run.nontrivial(1);
+        let want = (1..n).map(|i| DD::new((y[i] + y[i - 1]) / 2.0) * DD::new(x[i] - x[i - 1])).fold(DD::ZERO, |a, b| a + b).f();
+        judge(run, "trapezoid/repeated-x", guard(|| trapezoid(&y, Some(&x), None)), want, 4.0 * n as f64 * U * (n as f64) * 6.0, &|| format!("trapezoid(step function tabulated at {} points)", n));
+    }
     // abscissae that are uniform up to a drift or a jitter of 1e-3 .. 1e-12 relative ("non-uniform" all the
     // same: the integral of the interpolant uses the actual spacings), and grids with one odd spacing
     {
